@@ -124,6 +124,10 @@ class Oracle(object):
             return ok and bits[0]
         if cond == "c1":
             return ok and bits[1]
+        if cond == "raw0":
+            return bool(bits[0])
+        if cond == "raw1":
+            return bool(bits[1])
         if isinstance(cond, tuple) and cond[0] == "lt":
             return ok and ctx[cond[1]].tok < cond[2]
         if isinstance(cond, tuple) and cond[0] == "ge":
